@@ -662,6 +662,423 @@ func emitSite(sc siteCase) {
 	stat("site_"+sc.site+"_"+strings.SplitN(impl, ";", 2)[0], 1)
 }
 
+
+// ---------------------------------------------------------------- the oauth site
+
+// oauthDecl: one more Ingress (namespace a | b) with one rule host/path -> Service svc:8080.
+type oauthDecl struct{ ns, host, path, svc string }
+
+// oauthCase: Ingress a/app (host h0.local, path / -> Service a/svc) carries `oauth`.
+type oauthCase struct {
+	src   string // ing | svc: the object that carries the annotations
+	impl  string // p oauth2_proxy, h oauth2-proxy, x unknown implementation, u oauth2_proxy + auth-url, n none
+	pfx   string // "-" or h<hex of oauth-uri-prefix>
+	decls []oauthDecl
+	set   string // static + crt ca pw svc
+	fu    string // 0 first reconciliation; 1 namespace b converted first, a added by a partial sync; 2 all keys allow, then the ConfigMap changed
+}
+
+func declsTok(ds []oauthDecl) string {
+	if len(ds) == 0 {
+		return "-"
+	}
+	var parts []string
+	for _, d := range ds {
+		parts = append(parts, d.ns+":"+d.host+":"+hx(d.path)+":"+d.svc)
+	}
+	return strings.Join(parts, "+")
+}
+
+func parseDeclsTok(tok string) ([]oauthDecl, bool) {
+	if tok == "-" {
+		return nil, true
+	}
+	var ds []oauthDecl
+	for _, part := range strings.Split(tok, "+") {
+		f := strings.Split(part, ":")
+		if len(f) != 4 || (f[0] != "a" && f[0] != "b") || len(ds) >= 10 {
+			return nil, false
+		}
+		ds = append(ds, oauthDecl{f[0], f[1], unhx(f[2]), f[3]})
+	}
+	return ds, true
+}
+
+func (oc oauthCase) args() string {
+	return strings.Join([]string{"oauth", oc.src, oc.impl, oc.pfx, declsTok(oc.decls), oc.set, oc.fu}, " ")
+}
+
+func (oc oauthCase) annotations() map[string]string {
+	ann := map[string]string{}
+	switch oc.impl {
+	case "p", "u":
+		ann[pfx+"oauth"] = "oauth2_proxy"
+	case "h":
+		ann[pfx+"oauth"] = "oauth2-proxy"
+	case "x":
+		ann[pfx+"oauth"] = "other"
+	}
+	if oc.impl == "u" {
+		ann[pfx+"auth-url"] = "svc://authsvc:8080/auth"
+	}
+	if oc.pfx != "-" {
+		ann[pfx+"oauth-uri-prefix"] = unhx(oc.pfx)
+	}
+	return ann
+}
+
+func ingressPath(ns, name, host, path, svc string, ann map[string]string) *networking.Ingress {
+	ing := ingress(ns, name, host, svc, ann, nil)
+	ing.Spec.Rules[0].HTTP.Paths[0].Path = path
+	return ing
+}
+
+type oauthResult struct {
+	dump   string
+	target string // own:<svc> foreign:<svc> none
+	deny   bool
+	dyn    string
+	panic  bool
+	log    []string
+}
+
+// runOAuth builds one world and converts it. withForeign=false removes every Service of namespace b
+// (the foreign objects the lookup could reach); namespace b's Ingress objects stay.
+func runOAuth(oc oauthCase, withForeign bool) (res oauthResult) {
+	env := xnsworld.NewEnv(xnsworld.Settings{AllowCrossNS: oc.set[0] == '1'})
+	defer env.Close()
+	ctx := context.Background()
+	add := func(objs ...client.Object) {
+		for _, o := range objs {
+			must(env.Cli.Create(ctx, o))
+		}
+	}
+	svcNames := map[string]bool{"svc": true, "authsvc": true}
+	for _, d := range oc.decls {
+		svcNames[d.svc] = true
+	}
+	var names []string
+	for n := range svcNames {
+		names = append(names, n)
+	}
+	sort.Strings(names)
+	for _, ns := range []string{"a", "b"} {
+		if ns == "b" && !withForeign {
+			continue
+		}
+		for _, n := range names {
+			s, e := service(ns, n)
+			if ns == "a" && n == "svc" && oc.src == "svc" {
+				s.Annotations = oc.annotations()
+			}
+			add(s, e)
+		}
+	}
+	aAnn := map[string]string{}
+	if oc.src == "ing" {
+		aAnn = oc.annotations()
+	}
+	aIngs := []*networking.Ingress{ingressPath("a", "app", "h0.local", "/", "svc", aAnn)}
+	var bIngs []*networking.Ingress
+	for i, d := range oc.decls {
+		ing := ingressPath(d.ns, "i"+strconv.Itoa(i), d.host+".local", d.path, d.svc, map[string]string{})
+		if d.ns == "a" {
+			aIngs = append(aIngs, ing)
+		} else {
+			bIngs = append(bIngs, ing)
+		}
+	}
+	addIngs := func(ings []*networking.Ingress) {
+		for _, i := range ings {
+			add(i)
+		}
+	}
+	cm := map[string]string{}
+	for i, k := range cmKeys {
+		if oc.set[i+1] == '1' {
+			cm[k] = "allow"
+		} else {
+			cm[k] = "deny"
+		}
+	}
+	defer func() {
+		if r := recover(); r != nil {
+			res.panic = true
+			res.log = append(env.Logger.Lines, fmt.Sprint(r))
+		}
+	}()
+	switch oc.fu {
+	case "2":
+		allow := map[string]string{}
+		for _, k := range cmKeys {
+			allow[k] = "allow"
+		}
+		addIngs(aIngs)
+		addIngs(bIngs)
+		env.Sync(&convtypes.ChangedObjects{GlobalConfigMapDataNew: allow})
+		env.Commit()
+		env.Sync(&convtypes.ChangedObjects{GlobalConfigMapDataCur: allow, GlobalConfigMapDataNew: cm,
+			Links:   convtypes.TrackingLinks{convtypes.ResourceConfigMap: []string{"ingress-controller/haproxy-ingress"}},
+			Objects: []string{"update/ConfigMap:ingress-controller/haproxy-ingress"}})
+	case "1":
+		addIngs(bIngs)
+		env.Sync(&convtypes.ChangedObjects{GlobalConfigMapDataNew: cm})
+		env.Commit()
+		addIngs(aIngs)
+		var links, objs []string
+		for _, i := range aIngs {
+			links = append(links, i.Namespace+"/"+i.Name)
+			objs = append(objs, "add/Ingress:"+i.Namespace+"/"+i.Name)
+		}
+		env.Sync(&convtypes.ChangedObjects{
+			GlobalConfigMapDataCur: cm,
+			IngressesAdd:           aIngs,
+			Links:                  convtypes.TrackingLinks{convtypes.ResourceIngress: links},
+			Objects:                objs,
+		})
+	default:
+		addIngs(aIngs)
+		addIngs(bIngs)
+		env.Sync(&convtypes.ChangedObjects{GlobalConfigMapDataNew: cm})
+	}
+	res.dyn = dynStr(env.Dyn)
+	res.dump, res.target, res.deny = dumpOAuth(env)
+	res.log = env.Logger.Lines
+	return res
+}
+
+// dumpOAuth: namespace a's slice of the haproxy model — every path of every backend of namespace a
+// with its whole AuthExternal, and the host paths that lead to a backend of namespace a.
+func dumpOAuth(env *xnsworld.Env) (dump, target string, deny bool) {
+	var sb strings.Builder
+	target = "none"
+	// the backend an AuthBackendName stands for: a backend ID (oauth), or the name of an auth proxy bind (auth-url)
+	resolve := func(name string) (ns, svc, text string) {
+		if name == "" {
+			return "", "", "-"
+		}
+		if b, found := env.HCfg.Backends().Items()[name]; found {
+			return b.Namespace, b.Name, b.ID
+		}
+		for _, bind := range env.HCfg.Frontend().AuthProxy.BindList {
+			if bind.AuthBackendName == name {
+				return bind.Backend.Namespace, bind.Backend.Name, "bind:" + bind.Backend.String()
+			}
+		}
+		// not a backend of the model: the ID says whose it would be
+		if f := strings.Split(name, "_"); len(f) == 3 {
+			return f[0], f[1], "?" + name
+		}
+		return "?", name, "?" + name
+	}
+	var ids []string
+	for id, b := range env.HCfg.Backends().Items() {
+		if b.Namespace == "a" {
+			ids = append(ids, id)
+		}
+	}
+	sort.Strings(ids)
+	for _, id := range ids {
+		b := env.HCfg.Backends().Items()[id]
+		var lines []string
+		for _, bp := range b.Paths {
+			ae := bp.AuthExternal
+			ns, svc, text := resolve(ae.AuthBackendName)
+			var vars []string
+			for k, v := range ae.HeadersVars {
+				vars = append(vars, k+"="+v)
+			}
+			sort.Strings(vars)
+			lines = append(lines, fmt.Sprintf("backend %s path %s%s authext deny=%v to=%s allowed=%s auth=%s redir=%s method=%s req=%v ok=%v fail=%v vars=%v;",
+				id, bp.Hostname(), bp.Path(), ae.AlwaysDeny, text, ae.AllowedPath, ae.AuthPath, ae.RedirectOnFail, ae.Method,
+				ae.HeadersRequest, ae.HeadersSucceed, ae.HeadersFail, vars))
+			if id == "a_svc_8080" && bp.Hostname() == "h0.local" && bp.Path() == "/" {
+				deny = ae.AlwaysDeny
+				switch {
+				case ns == "":
+					target = "none"
+				case ns == "a":
+					target = "own:" + svc
+				default:
+					target = "foreign:" + svc
+				}
+			}
+		}
+		sort.Strings(lines)
+		sb.WriteString(strings.Join(lines, ""))
+	}
+	for _, hn := range env.Hostnames() {
+		host := env.HCfg.Hosts().FindHost(hn)
+		for _, hp := range host.Paths {
+			if hp.Backend.Namespace == "a" {
+				fmt.Fprintf(&sb, "host %s path %s -> %s;", hn, hp.Path(), hp.Backend.ID)
+			}
+		}
+	}
+	return sb.String(), target, deny
+}
+
+func emitOAuth(oc oauthCase) {
+	w1 := runOAuth(oc, true)
+	w0 := runOAuth(oc, false)
+	var impl string
+	if w1.panic || w0.panic {
+		impl = "PANIC"
+	} else {
+		impl = "t=" + w1.target + ";d=" + b2s(w1.deny) + ";u=" + b2s(w1.dump != w0.dump) + ";b=" + w1.dyn
+	}
+	emit(oc.args(), impl)
+	if verbose {
+		fmt.Fprintf(out, "# W1 %s\n# W0 %s\n", w1.dump, w0.dump)
+		for _, l := range w1.log {
+			fmt.Fprintf(out, "#   log %s\n", l)
+		}
+	}
+	stat("oauth", 1)
+	stat("oauth_"+strings.SplitN(strings.SplitN(impl, ";", 2)[0], ":", 2)[0], 1)
+	stat("oauth_impl_"+oc.impl, 1)
+	stat("oauth_fu"+oc.fu, 1)
+	nb, shared := 0, false
+	for _, d := range oc.decls {
+		if d.ns == "b" {
+			nb++
+			if d.host == "h0" {
+				shared = true
+			}
+		}
+	}
+	if nb > 0 {
+		stat("oauth_with_foreign_decl", 1)
+	}
+	if shared {
+		stat("oauth_foreign_on_protected_host", 1)
+	}
+}
+
+const (
+	pOAuth2      = "/oauth2"
+	pOAuth2Slash = "/oauth2/"
+	pAuth2       = "/auth2"
+)
+
+// the variants the site is described with: namespace a's own proxy on no / the same / another / both
+// hostnames, namespace b's proxy on the protected hostname or on another one
+func oauthNamed(path string) [][]oauthDecl {
+	var res [][]oauthDecl
+	for _, own := range [][]string{{}, {"h0"}, {"h1"}, {"h0", "h1"}} {
+		for _, bhost := range []string{"h0", "h2"} {
+			var ds []oauthDecl
+			for _, h := range own {
+				ds = append(ds, oauthDecl{"a", h, path, "proxy"})
+			}
+			ds = append(ds, oauthDecl{"b", bhost, path, "proxy"})
+			res = append(res, ds)
+		}
+	}
+	return res
+}
+
+// every list of at most n declarations over alphabet
+func oauthLists(alphabet []oauthDecl, n int) [][]oauthDecl {
+	res := [][]oauthDecl{nil}
+	last := [][]oauthDecl{nil}
+	for k := 0; k < n; k++ {
+		var next [][]oauthDecl
+		for _, l := range last {
+			for _, d := range alphabet {
+				next = append(next, append(append([]oauthDecl{}, l...), d))
+			}
+		}
+		res = append(res, next...)
+		last = next
+	}
+	return res
+}
+
+// deterministic output needs: namespace a's proxies on DIFFERENT hostnames are one and the same Service
+// (Hosts().Items() is a Go map; which of several proxies of the namespace is taken is not decided)
+func oauthDeterministic(ds []oauthDecl) bool {
+	hosts, svcs := map[string]bool{}, map[string]bool{}
+	for _, d := range ds {
+		if d.ns == "a" {
+			hosts[d.host] = true
+			svcs[d.svc] = true
+		}
+	}
+	return len(hosts) <= 1 || len(svcs) <= 1
+}
+
+func oauthCases(thorough bool, r *gen.Rng) {
+	settings := allSettings()
+	// named variants x prefix forms x source x every setting x every history
+	type pv struct{ pfx, path string }
+	for _, v := range []pv{{"-", pOAuth2}, {hx(pAuth2), pAuth2}, {hx(pAuth2 + "/"), pAuth2 + "/"}, {hx(pAuth2), pOAuth2}, {"-", pOAuth2Slash}} {
+		for _, ds := range oauthNamed(v.path) {
+			for _, src := range []string{"ing", "svc"} {
+				for _, set := range settings {
+					for _, fu := range []string{"0", "1", "2"} {
+						if !thorough && src == "svc" && fu != "0" && set != "00000" && set != "11111" {
+							continue
+						}
+						emitOAuth(oauthCase{src, "p", v.pfx, ds, set, fu})
+					}
+				}
+				for _, impl := range []string{"h", "x", "u", "n"} {
+					for _, fu := range []string{"0", "1", "2"} {
+						emitOAuth(oauthCase{src, impl, v.pfx, ds, "00000", fu})
+					}
+				}
+			}
+		}
+	}
+	// exhaustive small scope: every list of <= 2 declarations over {a,b} x {h0,h1} x {/oauth2, /oauth2/}
+	var alphabet []oauthDecl
+	for _, ns := range []string{"a", "b"} {
+		for _, h := range []string{"h0", "h1"} {
+			for _, p := range []string{pOAuth2, pOAuth2Slash} {
+				alphabet = append(alphabet, oauthDecl{ns, h, p, "proxy"})
+			}
+		}
+	}
+	sets := []string{"00000", "11111"}
+	fus := []string{"0", "1"}
+	if thorough {
+		sets = settings
+		fus = []string{"0", "1", "2"}
+	}
+	for _, ds := range oauthLists(alphabet, 2) {
+		for _, pf := range []string{"-", hx(pOAuth2Slash), hx(pAuth2)} {
+			for _, set := range sets {
+				for _, fu := range fus {
+					emitOAuth(oauthCase{"ing", "p", pf, ds, set, fu})
+				}
+			}
+		}
+	}
+	// random: up to 5 declarations, 3 hostnames, 5 paths, 2 Services, every token drawn
+	n := 600
+	if thorough {
+		n = 8000
+	}
+	paths := []string{pOAuth2, pOAuth2Slash, pAuth2, pAuth2 + "//", "/x"}
+	pfxs := []string{"-", "-", hx(pOAuth2), hx(pOAuth2Slash), hx(pAuth2), hx(pAuth2 + "/"), hx("/x"), hx("/")}
+	for i := 0; i < n; i++ {
+		var ds []oauthDecl
+		for {
+			ds = nil
+			for k := r.Range(1, 5); k > 0; k-- {
+				ds = append(ds, oauthDecl{gen.Pick(r, []string{"a", "b", "b"}), gen.Pick(r, []string{"h0", "h0", "h1", "h2"}),
+					gen.Pick(r, paths), gen.Pick(r, []string{"proxy", "proxy2"})})
+			}
+			if oauthDeterministic(ds) {
+				break
+			}
+		}
+		emitOAuth(oauthCase{gen.Pick(r, []string{"ing", "svc"}), gen.Pick(r, []string{"p", "p", "p", "p", "h", "x", "u", "n"}),
+			gen.Pick(r, pfxs), ds, gen.Pick(r, settings), gen.Pick(r, []string{"0", "1", "2"})})
+	}
+}
+
 var allSites = []string{"tls", "tlstcp", "gwcert", "authtls", "authtlstcp", "securecrt", "secureca", "authsecret", "authurl", "authurlfe"}
 
 func siteSources(site string) []string {
@@ -734,6 +1151,16 @@ func corpus() {
 	emitSite(siteCase{"authtls", "ing", "other", "01011", "0"})
 	emitSite(siteCase{"authsecret", "ing", "other", "01101", "0"})
 	emitSite(siteCase{"authurl", "ing", "other", "11110", "0"})
+	// oauth: the proxy is found by LOOKUP of the /oauth2 path; seed C09e looked at the protected path's
+	// hostname first, without the namespace test (foreign-service-used:oauth): namespace b's proxy on the
+	// shared hostname, a without a proxy / with its own proxy on another hostname / Service annotation /
+	// configured prefix / partial sync after b
+	b0 := oauthDecl{"b", "h0", pOAuth2, "proxy"}
+	emitOAuth(oauthCase{"ing", "p", "-", []oauthDecl{b0}, "00000", "0"})
+	emitOAuth(oauthCase{"ing", "p", "-", []oauthDecl{{"a", "h1", pOAuth2, "proxy"}, b0}, "00000", "0"})
+	emitOAuth(oauthCase{"svc", "h", "-", []oauthDecl{b0}, "00000", "0"})
+	emitOAuth(oauthCase{"ing", "p", hx(pAuth2 + "/"), []oauthDecl{{"b", "h0", pAuth2, "proxy"}}, "00000", "1"})
+	emitOAuth(oauthCase{"ing", "p", "-", []oauthDecl{b0}, "11111", "2"})
 }
 
 func TestC09(t *testing.T) {
@@ -765,6 +1192,10 @@ func TestC09(t *testing.T) {
 				emitDyn(f[2] == "1", f[3])
 			case f[1] == "site" && len(f) == 7:
 				emitSite(siteCase{f[2], f[3], f[4], f[5], f[6]})
+			case f[1] == "oauth" && len(f) == 8:
+				if ds, ok := parseDeclsTok(f[5]); ok {
+					emitOAuth(oauthCase{f[2], f[3], f[4], ds, f[6], f[7]})
+				}
 			}
 		}
 		return
@@ -853,7 +1284,7 @@ func TestC09(t *testing.T) {
 
 	// --- reference sites: every site x source x value form x 2^4 bits x static x foreign use
 	r := gen.New(seed)
-	_ = r
+	oauthCases(thorough, r.Fork())
 	for _, site := range allSites {
 		for _, src := range siteSources(site) {
 			for _, form := range siteForms(site) {
